@@ -29,6 +29,10 @@ TT = z3.Array("TOKTYPE", z3.IntSort(), z3.StringSort())
 TPOS = z3.Function("TOKPOS", z3.IntSort(), z3.IntSort())
 N = z3.Int("ntokens")
 DIG = z3.Range("0", "9")
+# the scanner's word classes (lexer.KEYWORDS re-read from the tree at import time would be circular here: the scanner
+# step obligations in c01.py prove "identifier tokens are none of these" against the real KEYWORDS list)
+WORDS_NOT_IDENTIFIERS = ["if", "then", "elif", "else", "and", "or", "not", "is", "in", "def", "fn", "for", "while", "do", "end", "finally", "catch",
+                         "break", "continue", "return", "error", "require", "as", "also", "TRUE", "FALSE"]
 
 STRICT = ["parse_bare_block", "parse_block", "parse_statement", "parse_expression", "parse_or_expr", "parse_and_expr", "parse_not_expr",
           "parse_rel_expr", "parse_add_expr", "parse_mul_expr", "parse_unary_expr", "parse_pred_expr", "parse_primary_expr", "parse_fn"]
@@ -38,7 +42,20 @@ POSTFIX = {"_invoke": [("!>", "operator")], "_call": [("(", "interpunction")], "
            "deref_or_call_or_invoke": [], "deref_or_invoke": [], "invoke": [], "collect_predicate_min_max_exact": []}
 
 
-def make_lexer(w, it):
+def token_wf(val, typ):
+    """what the scanner guarantees about every token it emits (numeral shapes: bounded fuzzing only, see lexstep.py;
+    word classes: proved on the scanner step in c01.py)"""
+    return z3.And(
+        z3.Implies(typ == z3.StringVal("int"), z3.InRe(val, z3.Plus(DIG))),
+        z3.Implies(typ == z3.StringVal("decimal"), z3.InRe(val, z3.Concat(z3.Plus(DIG), z3.Re(z3.StringVal(".")), z3.Star(DIG)))),
+        z3.Implies(typ == z3.StringVal("pattern"), z3.Length(val) >= 4),
+        z3.Implies(typ == z3.StringVal("identifier"), z3.And(*[val != z3.StringVal(k) for k in WORDS_NOT_IDENTIFIERS])),
+        z3.Implies(typ == z3.StringVal("keyword"), z3.Or(*[val == z3.StringVal(k) for k in WORDS_NOT_IDENTIFIERS[:-2]])))
+
+
+def make_lexer(w, it, nonempty=True):
+    """`nonempty`: the precondition of every parse function and of Lexer.getPos / getPosNext (which would recurse
+    forever on an empty token list): the token list has at least one token.  Call sites must establish it."""
     lex = w.import_module("ckl.lexer").ns
 
     def tok(it_, idx, node):
@@ -48,17 +65,14 @@ def make_lexer(w, it):
         j = z3.simplify(z3.If(i >= 0, i, i + n))
         val, typ = z3.Select(TV, j), z3.Select(TT, j)
         # what the scanner guarantees about the token it emitted (assumed here, see module docstring)
-        it_.path.assume(z3.And(
-            z3.Implies(typ == z3.StringVal("int"), z3.InRe(val, z3.Plus(DIG))),
-            z3.Implies(typ == z3.StringVal("decimal"), z3.InRe(val, z3.Concat(z3.Plus(DIG), z3.Re(z3.StringVal(".")), z3.Star(DIG)))),
-            z3.Implies(typ == z3.StringVal("pattern"), z3.Length(val) >= 4)), check=False)
+        it_.path.assume(token_wf(val, typ), check=False)
         o = Obj(lex["Token"], {"value": SStr(val), "type": SStr(typ), "pos": SElem(TPOS(j), "pos")})
         o.fresh = False
         return o
     tokens = ScriptAbs(SInt(N), tok)
     lx = Obj(lex["Lexer"], {"script": "", "name": SStr(z3.String("fname")), "tokens": tokens, "nextToken": SInt(z3.Int("nt0"))})
     lx.fresh = False
-    it.assume(z3.And(N >= 1, z3.Int("nt0") >= 0, z3.Int("nt0") <= N))
+    it.assume(z3.And(N >= (1 if nonempty else 0), z3.Int("nt0") >= 0, z3.Int("nt0") <= N))
     return lx
 
 
@@ -157,6 +171,7 @@ def parser_units(w, prop):
             cur = nt(lexer)
             # pre: the lexer invariant
             it.check(f"pre:{name}:lexer-invariant", z3.And(cur >= 0, cur <= N), node)
+            it.check(f"pre:{name}:token-list-not-empty", N >= 1, node)
             if it.path.choose(2) == 1:
                 raise PyRaise(syntax_error(it, lexer))
             new = it.fresh_int("nt")
@@ -262,7 +277,7 @@ def parser_units(w, prop):
 
     # parse(lexer): entry point
     def s_parse(it):
-        lexer = make_lexer(w, it)
+        lexer = make_lexer(w, it, nonempty=False)     # parse() itself accepts what scan() returns: any token list
         it.assume(z3.Int("nt0") == 0)
         return [lexer], {}, {"lexer": lexer, "args": ([lexer], {}, {})}
 
@@ -275,6 +290,39 @@ def parser_units(w, prop):
     U.append(Unit("parser.py::parse", s_parse, p_parse, name="parser.py::parse[abstract token stream]", allowed=("CklSyntaxError",),
                   abstractions=ABS, config={"default_loop": default_loop, "merge_boolops": True}, body=lambda it, c: Outcome("return", it.call_func(parser["parse"], c["args"][0], {})),
                   replay=replay_fuzz, prepare=NF.install))
+
+    # parse_script(script, filename) = parse(Lexer(script, filename).scan()): scan() and parse() by their contracts
+    def s_script(it):
+        return [it.fresh_str("script"), it.fresh_str("filename")], {}, {}
+
+    def scan_contract(it, a, k, node):
+        lx = a[0]
+        # contracts/lexstep.py (scanner units): scan() terminates, raises only CklSyntaxError(msg, pos), returns the lexer
+        # itself holding a token list of any length (possibly empty) with the cursor at 0
+        if it.path.choose(2) == 1:
+            raise PyRaise(syntax_error(it, lx))
+        it.assume(N >= 0)
+        lx.fields["tokens"] = ScriptAbs(SInt(N), lambda it_, idx, n_: it_.unsupported("token access in parse_script"))
+        lx.fields["nextToken"] = 0
+        it.ghost["scanned"] = lx
+        return lx
+
+    def parse_contract(it, a, k, node):
+        lx = a[0]
+        it.check("pre:parse:the-freshly-scanned-lexer-with-cursor-0", lx is it.ghost.get("scanned") and lx.fields.get("nextToken") == 0, node)
+        if it.path.choose(2) == 1:
+            raise PyRaise(syntax_error(it, lx))
+        r = NF.node(it, "program")
+        it.ghost["program"] = r
+        return r
+
+    def p_script(it, c, o):
+        if o.kind == "raise":
+            it.check("raises:only-what-scan-or-parse-raise", bool(o.exc.fields.get("_from_callee")))
+            return
+        it.check("post:returns-the-program-parse-returned", o.value is it.ghost.get("program"))
+    U.append(Unit("parser.py::parse_script", s_script, p_script, allowed=("CklSyntaxError",),
+                  abstractions={"Lexer.scan": scan_contract, "parse": parse_contract}, replay=replay_fuzz, prepare=NF.install))
 
     # lexer cursor methods against the abstract token list
     def cursor_unit(meth, extra=None):
